@@ -373,11 +373,15 @@ def option_gate_tie(ctx: Ctx):
                 real = "pass"
             except Exception as e:  # noqa: BLE001
                 msg = str(e)
-                real = next((k for m, k in marks if m in msg), None) or ("ffDatMissing" if isinstance(e, FileNotFoundError) else f"other:{type(e).__name__}:{msg[:40]}")
+                real = next((k for m, k in marks if m in msg), None) or ("ffDatMissing" if isinstance(e, FileNotFoundError) else f"other:{type(e).__name__}")
+                # the wording of a message is not part of the property: what is compared is pass / refused and the
+                # exception class of the first refusal (missing file: FileNotFoundError, unusable combination: RuntimeError)
+                real_cls = type(e).__name__
             ctx.evaluations += 1
             ctx.count("option-gate", real)
             ctx.distinct.add(("option-gate", un, uf, ff, lig, pht, nn, nc))
-            if a != real:
+            cls_of = {"pass": "pass", "usernamesMissing": "FileNotFoundError", "userffMissing": "FileNotFoundError", "ligandMissing": "FileNotFoundError", "ffDatMissing": "FileNotFoundError"}
+            if cls_of.get(a, "RuntimeError") != ("pass" if real == "pass" else real_cls):
                 ctx.disagree("main.check_files + main.check_options (first refusal)", {"usernames": un, "userff": uf, "ff": ff, "ligand": lig, "ph": pht, "neutraln": nn, "neutralc": nc}, a, real)
     finally:
         for fn in os.listdir(d):
